@@ -382,6 +382,12 @@ func handleStream(svr interface{}, serviceName string, desc *grpc.StreamDesc, st
 		} else {
 			err = desc.Handler(svr, str)
 		}
+		// The handler has returned: the response writer must not be used by
+		// the stream any more (net/http recycles it once this function returns),
+		// e.g. by a goroutine that the handler left behind.
+		str.wmu.Lock()
+		str.finished = true
+		str.wmu.Unlock()
 		if str.writeFailed {
 			// nothing else we can do
 			return
@@ -480,12 +486,16 @@ type serverStream struct {
 	// recvd tracks the number of request messages received
 	recvd int
 
-	// wmu serializes access to w and protects headersSent, writeFailed, and tr
+	// wmu serializes access to w and protects headersSent, writeFailed,
+	// finished, and tr
 	wmu         sync.Mutex
 	w           http.ResponseWriter
 	headersSent bool
 	writeFailed bool
-	tr          []metadata.MD
+	// finished is set when the handler has returned; w must not be used
+	// after that
+	finished bool
+	tr       []metadata.MD
 }
 
 func (s *serverStream) SetHeader(md metadata.MD) error {
@@ -500,6 +510,9 @@ func (s *serverStream) setHeader(md metadata.MD, send bool) error {
 	s.wmu.Lock()
 	defer s.wmu.Unlock()
 
+	if s.finished {
+		return errors.New("stream is finished")
+	}
 	if s.headersSent {
 		return errors.New("headers already sent")
 	}
@@ -531,10 +544,11 @@ func (s *serverStream) SendMsg(m interface{}) error {
 	s.wmu.Lock()
 	defer s.wmu.Unlock()
 
-	if s.writeFailed {
+	if s.writeFailed || s.finished {
 		// strange, but simulates what happens in real GRPC: stream
-		// is closed after a write failure, and trying to send message
-		// on a closed stream returns EOF
+		// is closed after a write failure (or once the handler has
+		// returned), and trying to send message on a closed stream
+		// returns EOF
 		return io.EOF
 	}
 
